@@ -90,7 +90,7 @@ func (p *Parser) parseMacro(parser *Parser) (Node, error) {
 
 			// Expect block end
 			if parser.tokenIndex >= len(parser.tokens) ||
-				(parser.tokens[parser.tokenIndex].Type != TOKEN_BLOCK_END &&
+				(!isBlockEndToken(parser.tokens[parser.tokenIndex].Type) &&
 					parser.tokens[parser.tokenIndex].Type != TOKEN_BLOCK_END_TRIM) {
 				return nil, fmt.Errorf("expected block end token after macro declaration at line %d", macroLine)
 			}
@@ -104,7 +104,7 @@ func (p *Parser) parseMacro(parser *Parser) (Node, error) {
 
 			// Expect endmacro tag
 			if parser.tokenIndex+1 >= len(parser.tokens) ||
-				(parser.tokens[parser.tokenIndex].Type != TOKEN_BLOCK_START &&
+				(!isBlockStartToken(parser.tokens[parser.tokenIndex].Type) &&
 					parser.tokens[parser.tokenIndex].Type != TOKEN_BLOCK_START_TRIM) ||
 				parser.tokens[parser.tokenIndex+1].Type != TOKEN_NAME ||
 				parser.tokens[parser.tokenIndex+1].Value != "endmacro" {
@@ -117,7 +117,7 @@ func (p *Parser) parseMacro(parser *Parser) (Node, error) {
 
 			// Expect block end
 			if parser.tokenIndex >= len(parser.tokens) ||
-				(parser.tokens[parser.tokenIndex].Type != TOKEN_BLOCK_END &&
+				(!isBlockEndToken(parser.tokens[parser.tokenIndex].Type) &&
 					parser.tokens[parser.tokenIndex].Type != TOKEN_BLOCK_END_TRIM) {
 				return nil, fmt.Errorf("expected block end token after endmacro at line %d", parser.tokens[parser.tokenIndex].Line)
 			}
@@ -203,7 +203,7 @@ func (p *Parser) parseMacro(parser *Parser) (Node, error) {
 
 	// Expect block end
 	if parser.tokenIndex >= len(parser.tokens) ||
-		(parser.tokens[parser.tokenIndex].Type != TOKEN_BLOCK_END &&
+		(!isBlockEndToken(parser.tokens[parser.tokenIndex].Type) &&
 			parser.tokens[parser.tokenIndex].Type != TOKEN_BLOCK_END_TRIM) {
 		return nil, fmt.Errorf("expected block end token after macro declaration at line %d", macroLine)
 	}
@@ -217,7 +217,7 @@ func (p *Parser) parseMacro(parser *Parser) (Node, error) {
 
 	// Expect endmacro tag
 	if parser.tokenIndex+1 >= len(parser.tokens) ||
-		(parser.tokens[parser.tokenIndex].Type != TOKEN_BLOCK_START &&
+		(!isBlockStartToken(parser.tokens[parser.tokenIndex].Type) &&
 			parser.tokens[parser.tokenIndex].Type != TOKEN_BLOCK_START_TRIM) ||
 		parser.tokens[parser.tokenIndex+1].Type != TOKEN_NAME ||
 		parser.tokens[parser.tokenIndex+1].Value != "endmacro" {
@@ -230,7 +230,7 @@ func (p *Parser) parseMacro(parser *Parser) (Node, error) {
 
 	// Expect block end
 	if parser.tokenIndex >= len(parser.tokens) ||
-		(parser.tokens[parser.tokenIndex].Type != TOKEN_BLOCK_END &&
+		(!isBlockEndToken(parser.tokens[parser.tokenIndex].Type) &&
 			parser.tokens[parser.tokenIndex].Type != TOKEN_BLOCK_END_TRIM) {
 		return nil, fmt.Errorf("expected block end token after endmacro at line %d", parser.tokens[parser.tokenIndex].Line)
 	}
